@@ -51,6 +51,9 @@ CLAIMED = {
     "C13": ("exploration", "differential runtime monitor: lora-phy RadioKind implementations vs Semtech's C reference driver (SWL2001 via smtc-modem-cores FFI) on identical recording SPI models; valgrind memcheck leg on the FFI binary",
             "For every shared operation and legal parameter value the SX126x wire transcripts (trailing NOPs trimmed) and the SX127x chip-visible outcome (final register file from a random prior, FIFO, IRQ clears) are compared; documented errata/structural divergences are mirrored on the reference side exactly as the drivers' comments/tests state.",
             "Oracle = vendor C driver; mirrors and uncompared registers listed in evidence assumptions; values the reference cannot express are counted, not compared.", "6/C13"),
+    "C14": ("fault_enumeration", "runtime monitor with behavioural SPI-level chip models (SX126x, SX127x, own opcode/register constants) checking the four stated clauses where the bad state becomes observable; fault injection at every bus/busy/irq position; droppable futures dropped after every poll count; hook accessors for the driver's mode",
+            "All API sequences up to depth 4 (thorough: 5) over 17 symbols x chip outcomes {done, timeout, CRC/header error, spurious IRQ} x 4 chips, one run per SPI/BUSY/IRQ fault position (depth 2, thorough 3), wait_for_irq dropped after 0..15 polls with 7 continuations, Class A/C call orders through LorawanRadio with faults and drops.",
+            "Chip models written from the data sheets (what is lost on cold sleep/reset, what wakes the chip); double failures and continuous-RX errors exempt as the driver documents; get_rssi/process_irq_event on a sleeping chip are observations only.", "6/C14"),
     "C15": ("exploration", "exhaustive differential runtime monitor: calculator and every driver's LDRO decision vs exact-rational 16.38 ms rule, plus the bit actually written on SPI decoded by an independent chip decoder",
             "All 8 SF x 10 BW cells x 6 chip variants x coding rates x two frequency bands, exhaustive in both tiers.",
             "One cell (SF8/15.6 kHz) is set-valued for the reference but must be identical across implementations; datasheet register/command layout for decoding the written bit.", "6/C15"),
@@ -60,6 +63,9 @@ CLAIMED = {
     "C17": ("exploration", "runtime monitor: SPI writes of the real drivers decoded with datasheet formulas (independent decoder) and compared with the request; exhaustive raw status sweeps",
             "Every 1 Hz of the LoRaWAN bands + stride over 137-1020 MHz (thorough: every 1 Hz), every power -128..127 and i32 extremes per PA path/variant/band, all 65536 symbol counts, adapter margins 0..1000 ms per (SF,BW), all 2^24 SX126x status triples and 2^16 SX127x pairs.",
             "Datasheet formulas; set-valued where datasheet gives two numbers (listed in evidence assumptions); LR11xx power only clamping/monotonic clauses.", "6/C17"),
+    "C18": ("exploration", "exhaustive runtime monitor over the chip models: caller buffer with guard zones and canaries, returned length/bytes compared with the model's buffer at the reported position; panic trap; Miri and ASan legs in thorough",
+            "4 chips x {get_rx_result, LoRa::rx, LorawanRadio rx_single/rx_continuous} x buffer sizes {0,1,12,64,255,256} x every reported length 0..255 x every start offset 0..255, explicit/implicit header, hostile status bytes and packet-status bytes; exhaustive in both tiers (about 10 M cases).",
+            "Chip buffer model (256 bytes, wrap-around) from the data sheets; the full Device is not in the loop (RadioBuffer is crate-private), the adapter is observed at the PhyRxTx boundary.", "6/C18"),
     "C19": ("exploration", "runtime monitor: independent per-field description (owned bits, admissible range, truncation rule, unit mapping) judges every set/build/parse round trip; text-form round trips; panic trap; Miri leg on the unsafe text code in thorough",
             "Exhaustive values for every field up to 16 bits (three scenarios: fresh, other fields pre-set, override), boundaries + random for wider ones, all 2^16 DevNonces, 10^5 values for each of 18 identifier/key types, variable-length creators, 300k command sequences through build_mac_commands.",
             "Field descriptions transcribed from LoRaWAN 1.0.4 / TS009 / TS005; set-valued where the statement allows refusal or truncation.", "6/C19"),
